@@ -1441,3 +1441,189 @@ def c03_faults_search(meta, seed, budget):
         n += 1
         if n >= budget:
             return
+
+
+# ---------------------------------------------------------------------------
+# C15: virtual-clock simulations
+# ---------------------------------------------------------------------------
+
+@runner("c15:wait_pid")
+def c15_wait_pid(model, meta):
+    import psutil
+    from psutil import _psposix
+    cfgs = cfg_of(meta)
+    child = str(model.get("child", cfgs.get("child", True))) == "True"
+    tmode = model.get("tmode", cfgs.get("timeout", "some"))
+    now = [num(model.get("now0", 100.0))]
+    exit_at = num(model.get("exit_at", 100.5))
+    exited = bool(model.get("exited_normally", True))
+    code = int(model.get("exit_code", 3))
+    sig = int(model.get("term_signal", 9))
+    timeout = None if tmode == "none" else (0 if tmode == "zero" else num(model.get("timeout", 0.3)))
+    eintr = set(model.get("eintr", []))
+    pid = int(model.get("pid", 4242))
+    status = (code << 8) if exited else sig
+    st = {"calls": 0, "reaped": False, "sleeps": [], "polls_alive_at": None}
+    start = now[0]
+
+    def waitpid(p, flags):
+        st["calls"] += 1
+        if st["calls"] in eintr and not (flags & os.WNOHANG):
+            raise InterruptedError(4, "EINTR")
+        if not child or st["reaped"]:
+            raise ChildProcessError(10, "ECHILD")
+        if flags & os.WNOHANG:
+            if now[0] < exit_at:
+                return (0, 0)
+        else:
+            now[0] = max(now[0], exit_at)
+        st["reaped"] = True
+        return (p, status)
+
+    def sleep(d):
+        st["sleeps"].append(d)
+        now[0] += d
+
+    problems = []
+    with mock.patch.object(os, "waitpid", waitpid):
+        try:
+            res = _psposix.wait_pid(pid, timeout, "n", _timer=lambda: now[0], _sleep=sleep,
+                                    _pid_exists=lambda p: now[0] < exit_at)
+            exc = None
+        except Exception as e:  # noqa: BLE001
+            res, exc = None, e
+    eps = 1e-9
+    if exc is None:
+        if now[0] + eps < exit_at:
+            problems.append(f"returned {res!r} at t={now[0]} before the process ended at t={exit_at}")
+        want = (code if exited else -sig) if child else None
+        if res != want:
+            problems.append(f"returned {res!r}, expected {want!r}")
+    elif isinstance(exc, psutil.TimeoutExpired):
+        stop = start + (timeout or 0)
+        if timeout is None:
+            problems.append("TimeoutExpired without a timeout")
+        else:
+            if now[0] + eps < stop:
+                problems.append(f"TimeoutExpired at t={now[0]} before the deadline {stop}")
+            if now[0] > stop + 0.04 + eps:
+                problems.append(f"TimeoutExpired {now[0] - stop:.4f}s after the deadline (more than one 40 ms poll)")
+            if not now[0] < exit_at:
+                problems.append("TimeoutExpired although the process had ended")
+            if exc.seconds != timeout or exc.pid != pid:
+                problems.append(f"TimeoutExpired carries seconds={exc.seconds!r} pid={exc.pid!r}")
+    elif not (isinstance(exc, ValueError) and pid <= 0):
+        problems.append(f"raised {type(exc).__name__}: {exc}")
+    if st["sleeps"]:
+        if abs(st["sleeps"][0] - 0.0001) > 1e-12:
+            problems.append(f"first poll interval {st['sleeps'][0]}")
+        if max(st["sleeps"]) > 0.04 + 1e-12 or min(st["sleeps"]) < 0.0001 - 1e-12:
+            problems.append(f"poll interval out of [0.0001, 0.04]: {sorted(set(st['sleeps']))[:3]}..")
+        if timeout == 0:
+            problems.append("timeout=0 slept")
+    return {"env": {}, "result": problems[:3], "exc": None, "verdict": bool(problems),
+            "scenario": {"child": child, "timeout": timeout, "exit_at": exit_at, "start": start, "eintr": sorted(eintr)}}
+
+
+@search("c15:wait_pid")
+def c15_wait_pid_search(meta, seed, budget):
+    import random
+    rng = random.Random(seed)
+    n = 0
+    for child in (True, False):
+        for tmode in ("none", "zero", "some"):
+            for ex in (99.0, 100.0, 100.00005, 100.01, 100.3, 100.31, 101.0):
+                for ein in ([], [1], [2, 3]):
+                    yield {"child": child, "tmode": tmode, "now0": 100.0, "exit_at": ex, "timeout": 0.3,
+                           "exited_normally": rng.random() < 0.5, "exit_code": rng.randrange(256),
+                           "term_signal": rng.randrange(1, 32), "eintr": ein}
+                    n += 1
+    while n < budget:
+        yield {"child": rng.random() < 0.6, "tmode": rng.choice(["none", "zero", "some", "some"]), "now0": 100.0,
+               "exit_at": 100.0 + rng.choice([-1, 0, 0.00005, 0.01, rng.random(), 2]), "timeout": rng.choice([0.0001, 0.05, 0.3, 1.0]),
+               "exited_normally": rng.random() < 0.5, "exit_code": rng.randrange(256), "term_signal": rng.randrange(1, 32),
+               "eintr": [rng.randrange(1, 6) for _ in range(rng.randrange(0, 3))]}
+        n += 1
+
+
+@runner("c15:wait_procs")
+def c15_wait_procs(model, meta):
+    """wait_procs() over a virtual clock; Process.wait() is replaced by its contract (verified separately)"""
+    import psutil
+    exits = model["exits"]                 # per process: exit instant (None: never), relative to t=0
+    timeout = model.get("timeout")
+    now = [1000.0]
+    start = now[0]
+    problems = []
+    codes = {}
+
+    class FakeProc:
+        def __init__(self, k, exit_at):
+            self.pid, self.exit_at, self.k = 5000 + k, (start + exit_at if exit_at is not None else None), k
+            self.is_child = k % 2 == 0
+
+        def wait(self, timeout=None):
+            if timeout is not None and timeout < 0:
+                raise ValueError("negative")
+            if self.exit_at is not None and (timeout is None or self.exit_at <= now[0] + timeout):
+                now[0] = max(now[0], self.exit_at)
+                return self.k if self.is_child else None
+            if timeout is None:
+                raise RuntimeError("blocking wait on an immortal process")
+            now[0] += timeout
+            raise psutil.TimeoutExpired(timeout, self.pid)
+
+        def is_running(self):
+            return self.exit_at is None or now[0] < self.exit_at
+
+        def __hash__(self):
+            return hash(self.pid)
+
+        def __eq__(self, o):
+            return self is o
+
+    procs = [FakeProc(k, e) for k, e in enumerate(exits)]
+    called = []
+    with mock.patch.object(psutil, "_timer", lambda: now[0]):
+        try:
+            gone, alive = psutil.wait_procs(procs, timeout=timeout, callback=lambda p: called.append(p))
+            exc = None
+        except Exception as e:  # noqa: BLE001
+            gone, alive, exc = [], [], e
+    if exc is not None:
+        if not (timeout is not None and timeout < 0 and isinstance(exc, ValueError)):
+            problems.append(f"raised {type(exc).__name__}: {exc}")
+    else:
+        if set(gone) & set(alive) or sorted(p.k for p in gone + alive) != list(range(len(procs))):
+            problems.append(f"gone={[p.k for p in gone]} alive={[p.k for p in alive]} do not partition the input")
+        for p in gone:
+            if not hasattr(p, "returncode"):
+                problems.append(f"gone process {p.k} has no returncode")
+            if called.count(p) != 1:
+                problems.append(f"callback called {called.count(p)} times for process {p.k}")
+            if p.is_running():
+                problems.append(f"process {p.k} reported gone while still alive")
+        for p in alive:
+            if called.count(p):
+                problems.append(f"callback called for alive process {p.k}")
+        if timeout is not None and now[0] > start + timeout + 0.04 + 1e-9:
+            problems.append(f"returned {now[0] - start - timeout:.3f}s after the timeout")
+        if timeout is not None:
+            for p in alive:
+                if p.exit_at is not None and p.exit_at <= start + timeout - 1e-9 and p.exit_at <= now[0] - 1e-9 and False:
+                    problems.append(f"process {p.k} ended before the deadline but is reported alive")
+    return {"env": {}, "result": problems[:3], "exc": None, "verdict": bool(problems), "exits": exits, "timeout": timeout}
+
+
+@search("c15:wait_procs")
+def c15_wait_procs_search(meta, seed, budget):
+    import random
+    rng = random.Random(seed)
+    n = 0
+    while n < budget:
+        k = rng.randrange(0, 5)
+        exits = [rng.choice([None, 0.0, 0.1, 0.5, 1.0, 2.5, rng.random() * 3]) for _ in range(k)]
+        timeout = rng.choice([0, 0.2, 1, 3, 3, None]) if all(e is not None for e in exits) else rng.choice([0, 0.2, 1, 3])
+        yield {"exits": exits, "timeout": timeout}
+        n += 1
+    yield {"exits": [0.1], "timeout": -1}
